@@ -1276,10 +1276,50 @@ func usesUnreplayable(stubs map[string]int) bool {
 	return false
 }
 
+type modelPref struct {
+	syms []string
+	term string
+}
+
+var modelPrefs = []modelPref{
+	{[]string{"crl.ThisUpdate!sec", "crl.NextUpdate!sec"}, "(bvsle crl.ThisUpdate!sec crl.NextUpdate!sec)"},
+	{[]string{"c.NotBefore!sec", "c.NotAfter!sec"}, "(bvsle c.NotBefore!sec c.NotAfter!sec)"},
+}
+
 // pathModel returns a model of the current path condition (all input symbols).
 func (e *Exec) pathModel() map[string]string {
 	if len(e.syms) == 0 {
 		return map[string]string{}
+	}
+	// encodability preferences: among the models of the path, prefer one the real encoder accepts as a
+	// template (e.g. nextUpdate not before thisUpdate); purely a choice of witness, never a constraint
+	pushed := false
+	for _, pref := range modelPrefs {
+		ok := true
+		for _, sy := range pref.syms {
+			if !e.declared[sy] {
+				ok = false
+			}
+		}
+		if !ok {
+			continue
+		}
+		if !pushed {
+			e.s.Send("(push 1)")
+			pushed = true
+		}
+		e.s.Send("(push 1)")
+		e.s.Send("(assert " + pref.term + ")")
+		if e.s.Check() == "sat" {
+			// keep it (merge the inner frame into the outer one by re-asserting after the pop)
+			e.s.Send("(pop 1)")
+			e.s.Send("(assert " + pref.term + ")")
+		} else {
+			e.s.Send("(pop 1)")
+		}
+	}
+	if pushed {
+		defer e.s.Send("(pop 1)")
 	}
 	if e.s.Check() != "sat" {
 		return nil
